@@ -39,7 +39,7 @@ func runC04(c *ev.Ctx) {
 	add := func(cc c04Case) {
 		cases = append(cases, ev.Case{Idx: len(cases), Desc: fmt.Sprintf("%s sub=%d %+v", cc.Kind, cc.Sub, cc.P), Data: cc})
 	}
-	n := c.N(6000, 100000)
+	n := c.N(16000, 3000000)
 	for i := 0; i < n; i++ {
 		p := vp8.Params{}
 		switch i % 8 {
@@ -55,10 +55,14 @@ func runC04(c *ev.Ctx) {
 			p.NoCoeffs = true
 		case 6:
 			p.CoeffScale = 3
+		case 7:
+			// constructs on which libwebp (= RFC 6386: clamp once) and libvpx differ: out-of-range segment
+			// quantiser / filter values combined with deltas. libwebp stays the reference.
+			p.AllowAmbiguous = true
 		}
 		add(c04Case{Kind: "synth", P: p, Sub: i})
 	}
-	nb := c.N(150, 6000)
+	nb := c.N(200, 40000)
 	for i := 0; i < nb; i++ {
 		p := vp8.Params{MaxSide: 160}
 		if c.Thorough() && i%6 == 0 {
@@ -66,11 +70,11 @@ func runC04(c *ev.Ctx) {
 		}
 		add(c04Case{Kind: "synthbig", P: p, Sub: i})
 	}
-	na := c.N(1200, 20000)
+	na := c.N(3000, 400000)
 	for i := 0; i < na; i++ {
 		add(c04Case{Kind: "alph", Sub: i})
 	}
-	nl := c.N(500, 8000)
+	nl := c.N(1000, 100000)
 	for i := 0; i < nl; i++ {
 		k := "lwenc"
 		if i%3 == 0 {
@@ -154,6 +158,11 @@ func c04One(c *ev.Ctx, cs ev.Case, feat *featAgg) {
 	case "synth", "synthbig":
 		var f vp8.Features
 		payload, f = vp8.Synthesize(r, cc.P)
+		if cs.Idx%16 == 5 && len(payload) >= 10 { // upscaling hints in the frame header: decoders ignore them, dimensions stay 14-bit
+			payload[7] |= byte(1+r.Intn(3)) << 6
+			payload[9] |= byte(r.Intn(4)) << 6
+			feat.add("frames_with_scale_hint_bits", 1)
+		}
 		file = vp8.WrapRIFF(payload)
 		lvl := "0"
 		switch {
@@ -247,7 +256,15 @@ func c04One(c *ev.Ctx, cs ev.Case, feat *featAgg) {
 		return
 	}
 	c.Eval(1)
-	dec, derr := decode(file)
+	dec, derr, hung := decodeTimed(file)
+	if hung {
+		c.Violate(cs, "hang", map[string]string{"kind": cc.Kind}, "webp.Decode did not return within 60 s and again within 120 s on a stream libwebp decodes ["+sig+"]", rep())
+		return
+	}
+	if derr == errAfterHang {
+		c.Inconclusive("skipped-after-confirmed-hang")
+		return
+	}
 	if derr != nil {
 		c.Violate(cs, "valid-stream-rejected", map[string]string{"kind": cc.Kind}, fmt.Sprintf("libwebp decodes %dx%d, webp.Decode: %v [%s]", ly.W, ly.H, derr, sig), rep())
 		return
